@@ -41,6 +41,12 @@ def Heap.empty : Heap :=
   { parent := fun _ => none, ps := fun _ => none, ns := fun _ => none, pe := fun _ => none, ne := fun _ => none,
     kids := fun _ => [], kind := fun _ => .str, val := fun _ => [], next := 0, cap := 1 }
 
+/-- the start of every history: `n` freshly constructed objects of the given kinds, nothing linked -/
+def Heap.init (kinds : List Kind) : Heap :=
+  { Heap.empty with
+    kind := fun i => match kinds[i]? with | some k => k | none => .str,
+    val := fun i => [i], next := kinds.length, cap := kinds.length + 1 }
+
 /-! ## field writes -/
 def setParent (h : Heap) (i : Nat) (v : Option Nat) : Heap := { h with parent := fun j => if j = i then v else h.parent j }
 def setPs (h : Heap) (i : Nat) (v : Option Nat) : Heap := { h with ps := fun j => if j = i then v else h.ps j }
